@@ -81,6 +81,18 @@ def paths(rdef, res, strict):
     for name, p in (("guard_single", pol), ("guard_set", {"algorithm": "deny-overrides", "policies": [{"rules": [rule]}]})):
         o = real.run_guard(p, req, {"strict": strict})
         out[name] = o["ok"]["allowed"] if "ok" in o else "raised:" + o["raised"]
+    # the target under test as a deny next to a catch-all permit: a target that does not match must not hide the catch-all
+    shadow = {"algorithm": "deny-overrides", "rules": [dict(rule, id="t", effect="deny"),
+                                                        {"id": "w", "effect": "permit", "actions": ["*"], "resource": {"type": "*"}}]}
+    o = real.run_guard(shadow, req, {"strict": strict})
+    if "ok" not in o:
+        out["guard_next_to_catch_all"] = "raised:" + o["raised"]
+    elif o["ok"]["rule_id"] == "t" and not o["ok"]["allowed"]:
+        out["guard_next_to_catch_all"] = True
+    elif o["ok"]["rule_id"] == "w" and o["ok"]["allowed"]:
+        out["guard_next_to_catch_all"] = False
+    else:
+        out["guard_next_to_catch_all"] = f"neither: {o['ok']['effect']}/{o['ok']['rule_id']}/{o['ok']['reason']}"
     env = {"subject": {"id": "u", "roles": [], "attrs": {}}, "action": "read", "resource": env_res, "context": {}}
     if strict:
         env["__strict_types__"] = True
@@ -123,8 +135,9 @@ def run_cases(run: lib.Run, audit: dict, scale: int = 1):
 
 def check(run: lib.Run, audit: dict) -> int:
     run.rule = ("exhaustive: 7 target types × 7 target ids × 5 request types × 9 request ids; 14 attribute specs × attrs/attributes key × 11 "
-                "request attribute values (near-duplicates '1'/1/1.0/True/'True'/None/'None', missing key, no attrs); each × lax/strict × 5 paths "
-                "(match_resource with strict kw, legacy in-resource flag, Guard single policy = compiled path, Guard policy set, compile()); "
+                "request attribute values (near-duplicates '1'/1/1.0/True/'True'/None/'None', missing key, no attrs); each × lax/strict × 6 paths "
+                "(match_resource with strict kw, legacy in-resource flag, Guard single policy = compiled path, the same rule as a deny next to a "
+                "catch-all permit, Guard policy set, compile()); "
                 "random targets/resources from the shared grammar. non-trivial = the documented table says 'match'")
     run.exhaustive = True
     run.assumptions = ["strict equality is Python == (True/1/1.0 identified) — DESIGN §6 F16", "str() of floats/containers is an oracle"]
